@@ -1,6 +1,7 @@
 package resolve
 
 import (
+	"context"
 	"encoding/binary"
 	"sync"
 	"sync/atomic"
@@ -48,6 +49,8 @@ type InflightRequest struct {
 	ID         uint64
 
 	followerCount atomic.Int32
+	// leaderCtx is the context of the request that created this InflightRequest (the leader)
+	leaderCtx context.Context
 }
 
 func (r *InflightRequest) AddFollower() {
@@ -56,6 +59,14 @@ func (r *InflightRequest) AddFollower() {
 
 func (r *InflightRequest) HasFollowers() bool {
 	return r.followerCount.Load() > 0
+}
+
+// leaderGone reports whether the leader's own context has ended (client disconnected, deadline).
+// Whatever the leader produced after that point is a consequence of its own cancellation,
+// so it must not become the result of the followers: Data and Err stay unset,
+// GetOrCreate returns nil,nil to the followers and they execute on their own.
+func (r *InflightRequest) leaderGone() bool {
+	return r.leaderCtx != nil && r.leaderCtx.Err() != nil
 }
 
 // GetOrCreate creates a new InflightRequest or returns an existing (shared) one
@@ -91,8 +102,9 @@ func (r *InboundRequestSingleFlight) GetOrCreate(ctx *Context, response *GraphQL
 	shard := r.shardFor(key)
 
 	request := &InflightRequest{
-		Done: make(chan struct{}),
-		ID:   key,
+		Done:      make(chan struct{}),
+		ID:        key,
+		leaderCtx: ctx.ctx,
 	}
 
 	inflight, shared := shard.m.LoadOrStore(key, request)
@@ -106,7 +118,7 @@ func (r *InboundRequestSingleFlight) GetOrCreate(ctx *Context, response *GraphQL
 				return nil, request.Err
 			}
 			if request.Data == nil {
-				// The leader finished before we registered as a follower, so it shared nothing:
+				// The leader finished before we registered as a follower (or gave up), so it shared nothing:
 				// not de-duplicated, the caller executes on its own and must not touch the leader's request.
 				return nil, nil
 			}
@@ -125,7 +137,7 @@ func (r *InboundRequestSingleFlight) FinishOk(req *InflightRequest, data []byte)
 	}
 	shard := r.shardFor(req.ID)
 	shard.m.Delete(req.ID)
-	if req.HasFollowers() {
+	if req.HasFollowers() && !req.leaderGone() {
 		// optimization to only copy when we actually have to
 		req.Data = make([]byte, len(data))
 		copy(req.Data, data)
@@ -140,7 +152,9 @@ func (r *InboundRequestSingleFlight) FinishErr(req *InflightRequest, err error) 
 	}
 	shard := r.shardFor(req.ID)
 	shard.m.Delete(req.ID)
-	req.Err = err
+	if !req.leaderGone() {
+		req.Err = err
+	}
 	close(req.Done)
 }
 
